@@ -1641,6 +1641,23 @@ func main() {
 		ts = append(ts, f.coq)
 	}
 	sb.WriteString("Definition gen_types : list gtype := [\n  " + strings.Join(ts, ";\n  ") + "\n].\n\n")
+	var als []string
+	for _, pn := range pkgNames {
+		pi := pkgs[pn]
+		var names []string
+		for n, ts := range pi.types {
+			if ts.Assign.IsValid() {
+				names = append(names, n)
+			}
+		}
+		sort.Strings(names)
+		for _, n := range names {
+			if q, ok := pi.qname(pi.types[n].Type); ok {
+				als = append(als, "("+cstr(pn+"."+n)+", "+cstr(q)+")")
+			}
+		}
+	}
+	sb.WriteString("Definition gen_aliases : list (string * string) := " + clist(als) + ".\n\n")
 	var ps []string
 	for _, p := range partial {
 		ps = append(ps, cstr(p))
